@@ -18,7 +18,7 @@ def minimize_budget(ctx, results):
     nontrivial = 0
     for k in range(n):
         dim = rng.choice([2, 2, 3])
-        maxfun = rng.choice([1, 7, 25, 60, 150, 400, rng.randint(2, 900)])
+        maxfun = rng.choice([0, 1, 7, 25, 60, 150, 400, rng.randint(2, 900)])
         use_iter = rng.random() < 0.25
         seed = rng.randint(0, 10 ** 6)
         lo, hi = rng.choice([(-5.0, 5.0), (-0.1, 0.2), (1.0, 30.0)])
@@ -28,7 +28,7 @@ def minimize_budget(ctx, results):
         def fun(x, shift=shift, calls=calls):
             calls[0] += 1
             return float(np.sum((np.asarray(x) - shift) ** 2))
-        kw = {"maxiter": rng.randint(1, 4)} if use_iter else {"maxfun": maxfun}
+        kw = {"maxiter": rng.randint(0, 4)} if use_iter else {"maxfun": maxfun}
         try:
             r = minimize(fun, [(lo, hi)] * dim, seed=seed, log_level="critical", **kw)
         except Exception as ex:  # an exception is not a C03 matter; recorded
